@@ -13,6 +13,7 @@ TECHNIQUE = "deterministic simulation with fault injection: clients stalled at s
 RULE = ("plans: 1-5 clients stalled after j bytes of their handshake (every listener protocol incl. TLS ClientHello prefixes and QUIC streams), 0-2 tunnels whose far end "
         "stops reading, API calls (GET status/live/history/rules/metrics, POST rules/logrotate) at seeded instants, canary tunnels on every listener before, during "
         "(1-50 ms after an API call was issued) and after; non-trivial = at least one stalled client and one API call overlap a canary; distinct = event-order hash")
+RULE_MORE = 'Later additions: requests whose upstream never answers; a QUIC client stuck in its handshake; clients that never read a large error page; a crowd of connections with long names plus an API client that asks for /api/live and never reads (hyper write buffer 8 KiB); blocking sleeps on the runtime thread are accounted and judged.'
 LEVEL_TEXT = ("seeded exploration of the real listeners, registry locks, GC task and axum handlers: because the whole world is one deterministic event queue on a virtual clock, "
               "'the call did not return within 5 virtual seconds' is an observation, not a guess - nothing but periodic tickers was runnable in between")
 LEVEL_NOTE = "bounds: API call <= 5 virtual s, canary established <= 5 virtual s; stalled clients may stay stalled forever; single-threaded runtime (task-level interleavings)"
